@@ -149,6 +149,59 @@ Theorem C02_heun_alias_refuted :
 Proof. exact heun_alias_differs. Qed.
 Print Assumptions C02_heun_alias_refuted.
 
+(* ------------------------------------------------------------------------------------------------ (iv) vectorized helpers *)
+(* wsum(W, c(broadcast_pre(src), broadcast_post(tgt))) = for every target unit i: sum_j W[i][j] * c(src_j, tgt_i);
+   any coupling function, any matrix and vector sizes *)
+Theorem C02_wsum_broadcast_full : forall c W pre post, coupling_input c W pre post = coupling_spec c W pre post.
+Proof. exact coupling_input_eq_spec. Qed.
+Print Assumptions C02_wsum_broadcast_full.
+
+(* in-place `dy[lo:hi] = e` on a stale buffer and jax's functional `dy = dy.at[lo:hi].set(e)` on a fresh one return the same
+   array whenever the slices tile the state vector: the old content of dy never matters *)
+Theorem C02_inplace_eq_functional : forall us dy1 dy2, consecutive 0 us -> total_len us = length dy1 -> length dy1 = length dy2 ->
+  snd (inplace_call dy1 us) = snd (functional_call dy2 us) /\ snd (inplace_call dy1 us) = concat (map snd us).
+Proof. exact conventions_agree. Qed.
+Print Assumptions C02_inplace_eq_functional.
+
+(* the roll-based delay buffer updated in place (buf[:] = roll(buf, 1); buf[0] = x; read buf[d]) is a delay of d calls *)
+Theorem C02_ring_inplace_full : forall d xs buf, (d < length buf)%nat -> ring_run_inplace d buf xs = ring_spec d buf xs.
+Proof. exact ring_inplace_is_delay. Qed.
+Print Assumptions C02_ring_inplace_full.
+
+(* the same update on an immutable argument that is not threaded into the next call is NOT a delay (why JaxBackend refuses
+   the discrete-delay path: SUPPORTS_EDGE_DELAY_BUFFER = False) *)
+Theorem C02_ring_unthreaded_refuted :
+  ring_run_unthreaded 1 [Q2Qc 0; Q2Qc 0] [Q2Qc 1; Q2Qc 2; Q2Qc 3] <> ring_run_inplace 1 [Q2Qc 0; Q2Qc 0] [Q2Qc 1; Q2Qc 2; Q2Qc 3].
+Proof. exact ring_unthreaded_differs. Qed.
+Print Assumptions C02_ring_unthreaded_refuted.
+
+(* population circuits (matvec and coupling-template connections): Euler rows on every backend = the weighted-sum model *)
+Theorem C02_pop_run_full : forall b s dt steps ss y0, (1 <= ss)%nat ->
+  pop_run_impl b s dt steps ss y0 = pop_run_spec s dt steps ss y0.
+Proof. exact pop_run_eq_spec. Qed.
+Print Assumptions C02_pop_run_full.
+
+(* ------------------------------------------------------------------------------------------------ (v) sigmoid *)
+(* the algebraic part: 1/(1+exp(-x)) (base def, Fortran helper text, numpy stand-ins of torch/jax) equals the logistic form
+   exp(x)/(1+exp(x)) (torch.sigmoid, jax.nn.sigmoid) for ANY function E with E(-x)*E(x) = 1; value 1/2 at 0 *)
+Theorem C02_sigmoid_forms : forall (E : Qc -> Qc) x, E (- x) * E x = 1 -> 1 + E x <> 0 -> 1 + E (- x) <> 0 ->
+  sigmoid_base E x = sigmoid_logistic E x.
+Proof. exact sigmoid_forms. Qed.
+Print Assumptions C02_sigmoid_forms.
+
+Theorem C02_sigmoid_symmetry : forall (E : Qc -> Qc) x, E (- x) * E x = 1 -> 1 + E x <> 0 -> 1 + E (- x) <> 0 ->
+  sigmoid_base E (- x) = 1 - sigmoid_base E x.
+Proof. exact sigmoid_symmetry. Qed.
+Print Assumptions C02_sigmoid_symmetry.
+
+Theorem C02_sigmoid_at_0 : forall (E : Qc -> Qc), E 0 = 1 -> sigmoid_base E 0 = Q2Qc (1 # 2).
+Proof. exact sigmoid_at_0. Qed.
+Print Assumptions C02_sigmoid_at_0.
+
+Theorem C02_sigmoid_fortran_elementwise : forall (E : Qc -> Qc) xs, sigmoid_fortran_vec E xs = map (sigmoid_base E) xs.
+Proof. exact sigmoid_fortran_elementwise. Qed.
+Print Assumptions C02_sigmoid_fortran_elementwise.
+
 (* ------------------------------------------------------------------------------------------------ non-vacuity *)
 (* a grid with uneven spacing, a query inside, outside and on a grid point: all three helpers give 5/2, 1, 7, 3;
    a time-free 2x2 linear system satisfies the guard and all four backends give the same three Heun rows *)
